@@ -1,5 +1,6 @@
 use vstd::prelude::*;
 verus! {
+global size_of usize == 8;
 
 pub const LF: u8 = 10;
 pub const CR: u8 = 13;
@@ -32,6 +33,33 @@ pub open spec fn arr_in(a: ArrayIndex, lo: int, hi: int) -> bool
 {
     match a { Array::Arr(v) => forall|i: int| 0 <= i < v@.len() ==> resp_in(#[trigger] v@[i], lo, hi), Array::Nil => true }
 }
+
+
+pub proof fn lemma_resp_in_mono(r: RespIndex, lo: int, hi: int, lo2: int, hi2: int)
+    requires resp_in(r, lo, hi), lo2 <= lo, hi <= hi2
+    ensures resp_in(r, lo2, hi2)
+    decreases r
+{
+    match r {
+        Resp::Arr(a) => lemma_arr_in_mono(a, lo, hi, lo2, hi2),
+        _ => {}
+    }
+}
+pub proof fn lemma_arr_in_mono(a: ArrayIndex, lo: int, hi: int, lo2: int, hi2: int)
+    requires arr_in(a, lo, hi), lo2 <= lo, hi <= hi2
+    ensures arr_in(a, lo2, hi2)
+    decreases a
+{
+    match a {
+        Array::Arr(v) => {
+            assert forall|i: int| 0 <= i < v@.len() implies resp_in(#[trigger] v@[i], lo2, hi2) by {
+                lemma_resp_in_mono(v@[i], lo, hi, lo2, hi2);
+            }
+        }
+        Array::Nil => {}
+    }
+}
+pub open spec const MAX_BUF: int = 0x3fff_ffff_ffff_ffff;
 
 // ---- trusted shims ----
 pub broadcast axiom fn axiom_slice_len(s: &[u8]) ensures #[trigger] s@.len() <= isize::MAX;
@@ -74,10 +102,21 @@ fn shim_advance_resp(v: &mut RespIndex, count: usize, Ghost(hi): Ghost<int>)
     ensures resp_in(*final(v), count as int, hi + count)
 { unimplemented!() }
 
+
+#[verifier::external_body]
+fn shim_get_from(s: &[u8], a: usize) -> (r: Option<&[u8]>)
+    ensures match r { Some(t) => a <= s@.len() && t@ == s@.subrange(a as int, s@.len() as int), None => a > s@.len() }
+{ s.get(a..) }
+#[verifier::external_body]
+fn shim_get_range(s: &[u8], a: usize, b: usize) -> (r: Option<&[u8]>)
+    ensures match r { Some(t) => a <= b <= s@.len() && t@ == s@.subrange(a as int, b as int), None => !(a <= b <= s@.len()) }
+{ s.get(a..b) }
+
 fn min(a: usize, b: usize) -> (r: usize) ensures r == (if a <= b { a } else { b }) { if a <= b { a } else { b } }
 
 // ---- extracted: src/protocol/stateless.rs (with the planned fix in parse_array) ----
 pub fn parse_resp(buf: &[u8]) -> (res: Result<(RespIndex, usize), ParseError>)
+    requires buf@.len() <= MAX_BUF
     ensures match res { Ok((v, c)) => 0 < c <= buf@.len() && resp_in(v, 0, c as int), Err(_) => true }
     decreases buf@.len(), 1int
 {
@@ -87,7 +126,7 @@ pub fn parse_resp(buf: &[u8]) -> (res: Result<(RespIndex, usize), ParseError>)
     }
 
     let prefix = *buf.first().ok_or(ParseError::UnexpectedErr)?;
-    let next_buf = buf.get(1..).ok_or(ParseError::InvalidProtocol)?;
+    let next_buf = shim_get_from(buf, 1).ok_or(ParseError::InvalidProtocol)?;
 
     match prefix {
         b'$' => {
@@ -113,6 +152,7 @@ pub fn parse_resp(buf: &[u8]) -> (res: Result<(RespIndex, usize), ParseError>)
         b'*' => {
             let (mut v, consumed) = parse_array(next_buf)?;
             shim_advance_arr(&mut v, 1, Ghost(consumed as int));
+            proof { lemma_arr_in_mono(v, 1, consumed + 1, 0, consumed + 1); }
             Ok((RespIndex::Arr(v), 1 + consumed))
         }
         prefix => {
@@ -122,6 +162,7 @@ pub fn parse_resp(buf: &[u8]) -> (res: Result<(RespIndex, usize), ParseError>)
 }
 
 fn parse_array(buf: &[u8]) -> (res: Result<(ArrayIndex, usize), ParseError>)
+    requires buf@.len() <= MAX_BUF
     ensures match res { Ok((v, c)) => 0 < c <= buf@.len() && arr_in(v, 0, c as int), Err(_) => true }
     decreases buf@.len(), 0int
 {
@@ -136,13 +177,23 @@ fn parse_array(buf: &[u8]) -> (res: Result<(ArrayIndex, usize), ParseError>)
 
     for _i in 0..array_size
         invariant
+            buf@.len() <= MAX_BUF,
             0 < consumed <= buf@.len(),
             forall|i: int| 0 <= i < array@.len() ==> resp_in(#[trigger] array@[i], 0, consumed as int),
     {
-        let next_buf = buf.get(consumed..).ok_or(ParseError::InvalidProtocol)?;
+        let next_buf = shim_get_from(buf, consumed).ok_or(ParseError::InvalidProtocol)?;
         let (mut v, element_consumed) = parse_resp(next_buf)?;
+        assert(next_buf@.len() == buf@.len() - consumed);
         shim_advance_resp(&mut v, consumed, Ghost(element_consumed as int));
+        let ghost old_consumed = consumed as int;
+        let ghost old_array = array@;
         consumed += element_consumed;
+        proof {
+            lemma_resp_in_mono(v, old_consumed, old_consumed + element_consumed, 0, consumed as int);
+            assert forall|i: int| 0 <= i < old_array.len() implies resp_in(#[trigger] old_array[i], 0, consumed as int) by {
+                lemma_resp_in_mono(old_array[i], 0, old_consumed, 0, consumed as int);
+            }
+        }
         array.push(v);
     }
 
@@ -150,6 +201,7 @@ fn parse_array(buf: &[u8]) -> (res: Result<(ArrayIndex, usize), ParseError>)
 }
 
 fn parse_bulk_str(buf: &[u8]) -> (res: Result<(BulkStrIndex, usize), ParseError>)
+    requires buf@.len() <= MAX_BUF
     ensures match res { Ok((v, c)) => 0 < c <= buf@.len() && bulk_in(v, 0, c as int), Err(_) => true }
 {
     broadcast use axiom_slice_len;
@@ -159,6 +211,8 @@ fn parse_bulk_str(buf: &[u8]) -> (res: Result<(BulkStrIndex, usize), ParseError>
     }
 
     let content_size = len as usize;
+    assert(content_size == len);
+    assert(consumed <= MAX_BUF);
     if buf.len() < consumed + content_size + 2 {
         return Err(ParseError::NotEnoughData);
     }
